@@ -178,6 +178,7 @@ func (l *Listener) Close() error {
 	l.closed = true
 	for _, e := range l.backlog {
 		e.pipe.Cut(KindRST, "listener closed with connection in backlog")
+		e.closed = true // never accepted: the kernel resets and releases it
 	}
 	l.backlog = nil
 	l.aq.WakeAll()
